@@ -341,7 +341,29 @@ def run_files(c, res):
                         if version != 'FCS2.0':
                             lay.update(stext=stext, stext_leading=lead)
                         judge_file(res, lay, dict(kind='file', layout=lay))
-    res.sample({'delimiter': d, 'example_extra': combos[1][0], 'stext': combos[1][1], 'analysis': combos[1][2], 'segment orders': 'all 24 (3.x) / 6 (2.0)'})
+    # offsets of the supplemental segment with different digit counts (begin below a power of ten, end above it), written zero-padded
+    # and blank-padded on either side within their fields; also with the supplemental segment in front of the primary one
+    for version in ('FCS3.0', 'FCS3.1'):
+        for fmt in ('zero', 'left', 'right'):
+            if d == ' ' and fmt != 'zero':
+                continue          # blank padding inside a value would have to be escaped when the delimiter is a blank
+            for target in (95, 995, 9995):
+                for order in (None, ['stext', 'text', 'data', 'analysis']):
+                    extra, stext, an = combos[(target + len(fmt)) % len(combos)]
+                    lay = dict(version=version, datatype='I', byteord='1,2,3,4', bits=[16, 16], ranges=[1024, 1024], events=[[1, 2], [3, 4]], delim=d,
+                               extra=extra, analysis=an, stext=stext + [('LONGER', 'value ' * 3)], offset_format=fmt)
+                    if order:
+                        lay['seg_order'] = order
+                    _, info0 = fcsgen.build(dict(lay))
+                    shift = target - info0['stext'][0]
+                    if shift < 0:
+                        continue
+                    lay['pad_before'] = {'stext': shift}
+                    _, info1 = fcsgen.build(dict(lay))
+                    assert info1['stext'][0] == target and len(str(info1['stext'][1])) > len(str(target)), info1['stext']
+                    judge_file(res, lay, dict(kind='file', layout=lay))
+    res.sample({'delimiter': d, 'example_extra': combos[1][0], 'stext': combos[1][1], 'analysis': combos[1][2], 'segment orders': 'all 24 (3.x) / 6 (2.0)',
+                'offset formats': 'zero / left / right padded, begin and end with different digit counts'})
     return res
 
 
